@@ -39,9 +39,9 @@ LEVEL_NOTE = ("Trusted: Lean kernel; axioms propext/Classical.choice/Quot.sound 
               "XalanMap as an association list; addNodeInDocOrder for one XalanSourceTree document incl. the binary insertion-point search (multi-document "
               "lists are C12); XPath match/use evaluation (abstract in the theorems; a "
               "spec-style evaluator for the generated fragment plus the observed getMatchScore behaviour on the document node in "
-              "the driver); XalanSourceTree node indices increasing in document order; generate-id() injective. Not modelled: "
-              "xsl:strip-space, namespace nodes, key() on result tree fragments (getKeyNode's fragment branch), key() inside "
-              "match/use.")
+              "the driver); XalanSourceTree node indices increasing in document order; generate-id() injective. Covered by the "
+              "correspondence run only (abstract in the theorems): xsl:strip-space, result tree fragments, positional predicates, "
+              "rejection of key() inside match/use. Not modelled: namespace nodes, multi-document node lists (C12).")
 DESIGN_REF = "DESIGN.md section 5, C15; design/C15.md"
 
 THEOREMS = [
@@ -75,32 +75,92 @@ G = _gen()
 
 
 # ---------------------------------------------------------------------------------------------------------------------
-def run_chunk(harness, model, cases, workdir):
-    """-> list of (impl_reply_of_run, model_reply_of_run, model_doc_sizes) per case"""
+def run_impl(cmd, req_path, env, stall):
+    """run the harness on a request file; -> (reply lines, hung?, stderr tail).  The harness answers every line at once,
+    so no output for `stall` seconds means it hangs on the current case: it is killed."""
+    import select
+    import subprocess
+    import tempfile
+    e = dict(os.environ)
+    if env:
+        e.update(env)
+    errf = tempfile.TemporaryFile()
+    with open(req_path, "rb") as inp:
+        p = subprocess.Popen(cmd, stdin=inp, stdout=subprocess.PIPE, stderr=errf, env=e)
+    fd = p.stdout.fileno()
+    buf = b""
+    hung = False
+    while True:
+        r, _, _ = select.select([fd], [], [], stall)
+        if not r:
+            hung = True
+            p.kill()
+            break
+        data = os.read(fd, 1 << 16)
+        if not data:
+            break
+        buf += data
+    p.wait()
+    errf.seek(0)
+    err = errf.read().decode("utf-8", "replace")[-1500:]
+    errf.close()
+    lines = buf.decode("utf-8", "replace").split("\n")
+    if lines and lines[-1] == "":
+        lines.pop()
+    elif lines:
+        lines.pop()          # incomplete last line of a killed process
+    return lines, hung, err
+
+
+def run_chunk(harness, model, cases, workdir, env=None, stall=40):
+    """-> list of (impl_reply_of_run, model_reply_of_run, model_doc_sizes) per case.
+    A harness that dies or hangs on a case yields "CRASH ..." for that case only; the cases after it are re-run in a
+    fresh harness process (after 4 such restarts the rest of the chunk is reported as not run)."""
+    import subprocess
     os.makedirs(workdir, exist_ok=True)
-    lines, marks = [], []
-    for c in cases:
-        ls = G.request_lines(c)
-        start = len(lines)
-        lines.extend(ls)
-        marks.append((start, len(lines) - 1, [start + 1 + k for k in range(len(c["docs"]))]))
-    req = os.path.join(workdir, "req.txt")
-    with open(req, "w") as f:
-        f.write("\n".join(lines) + "\n")
-    il, ml, irc, mrc, ierr, merr = common.run_pair([harness, workdir], [model], req, timeout=1500)
     res = []
-    for (start, runidx, docidx) in marks:
-        iv = il[runidx] if runidx < len(il) else "CRASH " + ierr[-400:].replace("\n", " | ")
-        mv = ml[runidx] if runidx < len(ml) else "MODELSTOP " + merr[-300:].replace("\n", " | ")
-        sizes = []
-        for di in docidx:
-            t = ml[di].split() if di < len(ml) else []
-            sizes.append(int(t[1]) if len(t) == 2 and t[0] == "ok" else -1)
-        res.append((iv, mv, sizes))
+    todo = list(cases)
+    restarts = 0
+    while todo:
+        lines, marks = [], []
+        for c in todo:
+            ls = G.request_lines(c)
+            start = len(lines)
+            lines.extend(ls)
+            marks.append((start, len(lines) - 1, [start + 1 + k for k in range(len(c["docs"]))]))
+        req = os.path.join(workdir, "req.txt")
+        with open(req, "w") as f:
+            f.write("\n".join(lines) + "\n")
+        with open(req, "rb") as inp:
+            mp = subprocess.run([model], stdin=inp, stdout=subprocess.PIPE, stderr=subprocess.PIPE, timeout=1500)
+        ml = mp.stdout.decode("utf-8", "replace").split("\n")
+        merr = mp.stderr.decode("utf-8", "replace")
+        if restarts > 3:
+            il, hung, ierr = [], False, "not run: too many crashes/hangs in this chunk"
+        else:
+            il, hung, ierr = run_impl([harness, workdir], req, env, stall)
+        done = 0
+        for (start, runidx, docidx) in marks:
+            mv = ml[runidx] if runidx < len(ml) else "MODELSTOP " + merr[-300:].replace("\n", " | ")
+            sizes = []
+            for di in docidx:
+                t = ml[di].split() if di < len(ml) else []
+                sizes.append(int(t[1]) if len(t) == 2 and t[0] == "ok" else -1)
+            done += 1
+            if runidx < len(il):
+                res.append((il[runidx], mv, sizes))
+            elif restarts > 3:
+                res.append(("NOTRUN", mv, sizes))
+            else:
+                res.append(("CRASH " + ("(hang: no reply for %d s) " % stall if hung else "") + ierr[-400:].replace("\n", " | "),
+                            mv, sizes))
+                restarts += 1
+                break
+        todo = todo[done:]
     return res
 
 
-def run_cases(harness, model, cases, tag, workers=None):
+def run_cases(harness, model, cases, tag, workers=None, env=None, stall=40):
     workers = workers or min(12, max(1, common.NPROC - 2))
     base = os.path.join(common.CACHE, "work", "c15-%s-%d" % (tag, os.getpid()))
     if len(cases) < 4 * workers:
@@ -109,7 +169,7 @@ def run_cases(harness, model, cases, tag, workers=None):
     out = [None] * len(cases)
     try:
         with concurrent.futures.ThreadPoolExecutor(max_workers=workers) as ex:
-            futs = {ex.submit(run_chunk, harness, model, ch, os.path.join(base, "w%d" % i)): i
+            futs = {ex.submit(run_chunk, harness, model, ch, os.path.join(base, "w%d" % i), env, stall): i
                     for i, ch in enumerate(chunks) if ch}
             for fu in concurrent.futures.as_completed(futs):
                 i = futs[fu]
@@ -137,6 +197,14 @@ def judge(case, res):
     """
     iv, mv, sizes = res
     probs = []
+    if iv == "NOTRUN":
+        return []
+    if case.get("expect_compile_error"):
+        msg = unhex(iv.split(" ", 1)[1]) if iv.startswith("ERR") and " " in iv else ""
+        if iv.startswith("ERR") and "key() function" in msg:
+            return []
+        return [("violation", "key.key-call-inside-use-or-match-accepted",
+                 "an xsl:key whose use/match calls key() must be rejected when the stylesheet is compiled; got: " + (msg or iv)[:200])]
     if mv.startswith("MODELSTOP") or mv.startswith("bad"):
         return [("corr", "model-rejected", "model driver: " + mv[:200])]
     toks = mv.split()
@@ -147,8 +215,10 @@ def judge(case, res):
     if len(mk) != len(calls) or len(ms) != len(calls) or len(mf) != len(calls):
         return [("corr", "model-reply-shape", mv[:200])]
     expect_err = "ERR" in mk
+    if iv == "NOTRUN":
+        return []
     if iv.startswith("CRASH"):
-        return [("violation", "key.crash", "harness died: " + iv[:300])]
+        return [("violation", "key.hang" if "(hang:" in iv else "key.crash", "harness died or hung on this case: " + iv[:300])]
     if iv.startswith("ERR"):
         msg = unhex(iv.split(" ", 1)[1]) if " " in iv else ""
         if not expect_err:
@@ -240,7 +310,7 @@ def sub_cases(case):
     c = case
     for i in range(len(c["calls"])):
         yield dict(c, calls=c["calls"][:i] + c["calls"][i + 1:])
-    for i in range(len(c["decls"])):
+    for i in range(len(c["decls"]) - (1 if c.get("expect_compile_error") else 0)):   # keep the offending declaration
         yield dict(c, decls=c["decls"][:i] + c["decls"][i + 1:])
     used = set(d[0] for d in c["decls"])
     for (sid, par, kind) in c["sheets"]:
@@ -251,6 +321,8 @@ def sub_cases(case):
         yield dict(c, docs=c["docs"][:last], rtf=[k for k in c.get("rtf", []) if k != last])
     for k in c.get("rtf", []):
         yield dict(c, rtf=[j for j in c["rtf"] if j != k])
+    if c.get("strip"):
+        yield dict(c, strip=None)
     for k, d in enumerate(c["docs"]):
         for nd in shrink_tree(d):
             yield dict(c, docs=c["docs"][:k] + [nd] + c["docs"][k + 1:], calls=[dict(x, ctx=0) for x in c["calls"]])
@@ -280,17 +352,22 @@ def shrink_tree(t):
 
 
 def shrink(harness, model, case, want_cls, want_keyclass, budget=120):
+    import time
+    hang = want_keyclass in ("key.hang", "key.crash")
+    if hang:
+        budget = min(budget, 25)      # every candidate that still hangs costs the stall time
     cur = case
     improved = True
     while improved and budget > 0:
         improved = False
         for cand in sub_cases(cur):
-            if budget <= 0:
+            if budget <= 0 or time.time() > SHRINK_DEADLINE[0]:
+                budget = 0
                 break
             if not cand["calls"]:
                 continue
             budget -= 1
-            r = run_cases(harness, model, [cand], "shrink", workers=1)[0]
+            r = run_cases(harness, model, [cand], "shrink", workers=1, stall=12)[0]
             ps = judge(cand, r)
             if any(p[0] == want_cls and keyclass(p[1]) == want_keyclass for p in ps):
                 cur = cand
@@ -299,15 +376,19 @@ def shrink(harness, model, case, want_cls, want_keyclass, budget=120):
     return cur
 
 
+# all shrinking of one run shares a wall-clock budget (a tree whose harness hangs makes every candidate slow)
+SHRINK_DEADLINE = [float("inf")]
+
+
 def keyclass(key):
     return re.sub(r"\[.*?\]", "", key.split(":")[0])
 
 
 def describe(case):
-    return {"docs": [G.doc_xml(d) for d in case["docs"]],
+    return {"docs": [G.doc_xml(d, set(case["strip"]) if case.get("strip") else None) for d in case["docs"]],
             "sheets": [list(s) for s in case["sheets"]],
             "decls": [list(d) for d in case["decls"]],
-            "calls": case["calls"], "rtf": case.get("rtf", []),
+            "calls": case["calls"], "rtf": case.get("rtf", []), "strip": case.get("strip"),
             "case": case}
 
 
@@ -319,7 +400,8 @@ def from_json(c):
             return ("E", n[1], [tuple(a) for a in n[2]], [tup(k) for k in n[3]], bool(n[4]) if len(n) > 4 else False)
         return tuple(n)
     return {"id": c.get("id", "replay"), "docs": [tup(d) for d in c["docs"]], "sheets": [tuple(s) for s in c["sheets"]],
-            "decls": [tuple(d) for d in c["decls"]], "calls": c["calls"], "rtf": c.get("rtf", [])}
+            "decls": [tuple(d) for d in c["decls"]], "calls": c["calls"], "rtf": c.get("rtf", []), "strip": c.get("strip"),
+            "expect_compile_error": c.get("expect_compile_error", False)}
 
 
 def corpus():
@@ -393,7 +475,8 @@ def run(ctx):
         "modelled, not verified: XalanMap as association list; addNodeInDocOrder for one XalanSourceTree document (multi-document lists: C12); match/use evaluation abstract in the theorems, spec-style evaluator for the "
         "generated fragment (+ observed getMatchScore behaviour on the document node) in the driver; XalanSourceTree indices "
         "increase in document order; generate-id() injective",
-        "not modelled: xsl:strip-space, namespace nodes, key() on result tree fragments, key() inside match/use",
+        "correspondence only: xsl:strip-space, result tree fragments, positional predicates, rejection of key() inside match/use; "
+        "not modelled: namespace nodes, multi-document node lists",
     ]
     ctx.build("hooks")
     ctx.translate("c15_functionkey")
@@ -413,6 +496,8 @@ def run(ctx):
         cases.extend(exhaustive_cases())
         ctx.exhaustive = False
     results = run_cases(harness, model, cases, "main")
+    import time
+    SHRINK_DEADLINE[0] = time.time() + (600 if ctx.thorough else 150)
     agree = True
     corr_details = []
     nshrunk = 0
@@ -422,6 +507,10 @@ def run(ctx):
         text = "\n".join(G.request_lines(case)[1:]) if nontriv else None
         ctx.case(nontrivial_key=text, sample=describe(case)["decls"] + [c for c in case["calls"][:2]] if ci in (ncorpus, ncorpus + 1) else None,
                  cls="docs=%d" % len(case["docs"]))
+        if case.get("expect_compile_error"):
+            ctx.hist["key() inside use/match (compile error expected)"] = ctx.hist.get("key() inside use/match (compile error expected)", 0) + 1
+        if case.get("strip"):
+            ctx.hist["with xsl:strip-space"] = ctx.hist.get("with xsl:strip-space", 0) + 1
         if case.get("rtf"):
             ctx.hist["with result-tree-fragment document"] = ctx.hist.get("with result-tree-fragment document", 0) + 1
         for c in case["calls"]:
@@ -453,6 +542,30 @@ def run(ctx):
                 small = shrink(harness, model, case, "corr", keyclass(probs[0][1]), budget=60)
                 ps = [q for q in judge(small, run_cases(harness, model, [small], "re", workers=1)[0]) if q[0] == "corr"] or probs
                 corr_details.append({"problem": ps[0][1] + " — " + ps[0][2], "input": describe(small)})
+    if ctx.thorough:
+        # the same scenarios against the ASan+UBSan build of the working tree (library and harness): a sanitizer report
+        # aborts the harness -> "CRASH" -> violation with the case as replay; answers are judged as above
+        # (detect_leaks=0: the build tool MsgCreator and Xerces' scanner leak by design; LeakSanitizer would fail the build)
+        os.environ.setdefault("ASAN_OPTIONS", "detect_leaks=0")
+        ctx.build("asan")
+        h_asan = common.build_harness("c15_keys", ["c15_keys.cpp"], flavor="asan")
+        sub = cases[:ncorpus] + cases[ncorpus:ncorpus + 4000]
+        env = {"ASAN_OPTIONS": "detect_leaks=0:abort_on_error=0", "UBSAN_OPTIONS": "print_stacktrace=1"}
+        res2 = run_cases(h_asan, model, sub, "asan", env=env, stall=180)
+        nbad = 0
+        for case, res in zip(sub, res2):
+            ps = judge(case, res)
+            ctx.hist["asan cases"] = ctx.hist.get("asan cases", 0) + 1
+            for p in ps:
+                nbad += 1
+                if p[0] == "violation":
+                    ctx.fail(p[1] + " [asan build]", p[2], describe(case))
+                else:
+                    agree = False
+                    if len(corr_details) < 3:
+                        corr_details.append({"problem": "[asan build] " + p[1] + " — " + p[2], "input": describe(case)})
+        ctx.oblige("sanitizer run: no ASan/UBSan report and the same answers on %d cases (asan build of the working tree)" % len(sub),
+                   "correspondence", nbad == 0, "%d problem(s)" % nbad)
     ctx.extra["correspondence_disagreements"] = corr_details
     ctx.oblige("correspondence: real key() = Lean model (as-written) and Xalan brute force = Lean specification on every generated case",
                "correspondence", agree, json.dumps(corr_details[:1], default=str)[:1800])
